@@ -2,6 +2,7 @@
   Driver/Ops.lean — dispatch of protocol lines to model functions.
 -/
 import Knx.Text
+import Knx.TunnelText
 
 namespace Driver
 open Knx Knx.Text
@@ -66,6 +67,7 @@ def runWire (op : String) (args : List String) : Option String :=
 def runLine (line : String) : String :=
   match line.splitOn " " with
   | [] => "bad-op"
+  | "tun" :: _ => (Knx.Tun.runScript line).getD "bad-op"
   | op :: args =>
     match runWire op args with
     | some s => s
